@@ -1247,6 +1247,12 @@ public:
   //! This function is generally used by `BaseAssembler::bind()` to do the heavy lifting.
   ASMJIT_API Error bind_label(const Label& label, uint32_t section_id, uint64_t offset) noexcept;
 
+  //! \cond INTERNAL
+  //! Tests whether every pending fixup of an unbound label `le` that comes from `section_id` could be patched if the label
+  //! was bound to `offset` of that section - what `bind_label()` verifies before it modifies anything.
+  ASMJIT_API Error _validate_label_fixups(const LabelEntry& le, uint32_t section_id, uint64_t offset) const noexcept;
+  //! \endcond
+
   //! \}
 
   //! \name Relocations
